@@ -637,6 +637,8 @@ func (iv *Inv) classifyCall(s *Site) (class, what string) {
 		return "coinsadd", n
 	case hasSuffixAny(n, "AccountI.String", "BaseAccount.String", "ModuleAccountI.String"):
 		return "accstring", n
+	case hasSuffixAny(n, "crypto/types.PubKey.Address", "secp256k1.PubKey.Address", "ed25519.PubKey.Address", "secp256r1.PubKey.Address"):
+		return "pubkeyaddr", n
 	case mustNames.MatchString(n):
 		return "must", n
 	}
@@ -1012,6 +1014,23 @@ func (iv *Inv) tryDischarge(s invSite) (bool, string) {
 		return iv.indexOK(fn, s.instr)
 	case "slice":
 		return false, "slice expression with non-constant bounds"
+	case "pubkeyaddr":
+		// a key taken from a stored account went through the ante handler's signature verification
+		if c, ok := s.instr.(ssa.CallInstruction); ok {
+			var recv ssa.Value
+			if c.Common().IsInvoke() {
+				recv = c.Common().Value
+			} else if len(c.Common().Args) > 0 {
+				recv = c.Common().Args[0]
+			}
+			if recv != nil {
+				o := iv.w.Tracer().Origins(recv)
+				if o.HasCall("GetPubKey") && !o.HasCall("UnmarshalInterfaceJSON") && !o.HasCall("UnpackAny") {
+					return true, "g5: the key is read from a stored account"
+				}
+			}
+		}
+		return false, "PubKey.Address() panics when the key bytes have the wrong length; a key decoded from a message (UnmarshalInterfaceJSON accepts a registered type with missing or short key bytes) is not length-checked"
 	case "accstring":
 		return false, "AccountI.String() panics when the account has a public key (BaseAccount.MarshalYAML with an unregistered Any)"
 	case "panic":
